@@ -272,6 +272,22 @@ func (c *vbConn) process(pk refPacket, lose bool) {
 			b.log.add(c.id, "B-DROPPED", &p, tag)
 			return
 		}
+		if f := b.fault(func(f *e4Fault) bool {
+			return f.Kind == "lateAck" && f.Conn == c.id && f.Type == p.Type && f.Nth == c.ackCount[p.Type]
+		}); f != nil && !lose {
+			// the acknowledgement is sent, but late (a slow broker): after DelayUs, if the link is still there
+			b.log.add(c.id, "B-LATE", &p, tag)
+			d := time.Duration(f.DelayUs) * time.Microsecond
+			go func() {
+				time.Sleep(d)
+				b.mu.Lock()
+				if !c.dead {
+					c.send(p, false, tag)
+				}
+				b.mu.Unlock()
+			}()
+			return
+		}
 		c.send(p, lose, tag)
 	}
 	switch pk.Type {
